@@ -71,7 +71,9 @@ def on_real_tree(tree, func, seconds=10):
 
     def handler(signum, frame):
         raise _Alarm()
-    root = tempfile.mkdtemp(prefix='wcverif_fs_')
+    parent = tempfile.mkdtemp(prefix='wcverif_fs_')          # a private parent: whatever escapes the tree through `..` sees nothing else
+    root = os.path.join(parent, 'wcvroot')
+    os.mkdir(root)
     old = signal.signal(signal.SIGALRM, handler)
     signal.alarm(seconds)
     try:
@@ -82,7 +84,7 @@ def on_real_tree(tree, func, seconds=10):
     finally:
         signal.alarm(0)
         signal.signal(signal.SIGALRM, old)
-        shutil.rmtree(root, ignore_errors=True)
+        shutil.rmtree(parent, ignore_errors=True)
 
 
 def normalise_obs(o, root):
